@@ -1,4 +1,5 @@
 #![allow(dead_code, unused_mut)]
+mod decoder;
 mod driver;
 mod gen;
 mod imp;
